@@ -220,6 +220,7 @@ class Run:
         self.events: List[Tuple[str, int]] = []  # (event name, line)
         self.end = ""  # return | raise:<Class> | stuck | budget
         self.raised: Optional[ast.AST] = None
+        self.state: Dict[str, int] = {}
 
 
 def run_int_cfg(
@@ -244,6 +245,7 @@ def run_int_cfg(
     cfg = ctx.cfg(fn)
     state = dict(init)
     run = Run()
+    run.state = state
     visits: Dict[int, int] = {}
     node = cfg.entry
     pending_exc: Optional[ast.expr] = None
@@ -299,11 +301,7 @@ def run_int_cfg(
             continue
         if isinstance(stmt, ast.AugAssign) and isinstance(stmt.target, ast.Name) and stmt.target.id in state:
             try:
-                rhs = int_eval(stmt.value, atoms)
-                cur = state[stmt.target.id]
-                state[stmt.target.id] = cur + rhs if isinstance(stmt.op, ast.Add) else cur - rhs if isinstance(stmt.op, ast.Sub) else cur
-                if not isinstance(stmt.op, (ast.Add, ast.Sub)):
-                    raise Unevaluable("op")
+                state[stmt.target.id] = int_eval(ast.BinOp(ast.Name(stmt.target.id, ast.Load()), stmt.op, stmt.value), atoms)
             except Unevaluable:
                 state.pop(stmt.target.id, None)
         elif isinstance(stmt, ast.Assign) and len(stmt.targets) == 1 and isinstance(stmt.targets[0], ast.Name) and stmt.targets[0].id in state:
